@@ -113,26 +113,42 @@ theorem minimum_is_foldl_min (t0 v0 : K) (steps : List (K × K)) :
     · simp [h, min_eq_right (le_of_lt h)]
     · simp [h, min_eq_left (not_lt.mp h)]
 
-/-! ## Differentiate (approximation in use) -/
 
-/-- the first-order estimate is exact for affine operands, and the second-order correction keeps it exact -/
-theorem diff_exact_affine (a b t0 t : K) (good : Bool) (h : t ≠ t0) :
-    (diffUpdate ⟨a * t0 + b, a, good, t0⟩ t (a * t + b) false).fdot = a := by
-  have hd : t - t0 ≠ 0 := sub_ne_zero.mpr h
-  unfold diffUpdate
-  cases good <;> simp <;> field_simp <;> ring
 
-/-- with an exact previous derivative the second-order update `2·slope − fdot₀` is exact for quadratic operands -/
-theorem diff_second_order_exact_quadratic (a b c t0 t : K) (h : t ≠ t0) :
-    (diffUpdate ⟨a * t0 ^ 2 + b * t0 + c, 2 * a * t0 + b, true, t0⟩ t (a * t ^ 2 + b * t + c) false).fdot = 2 * a * t + b := by
-  have hd : t - t0 ≠ 0 := sub_ne_zero.mpr h
-  unfold diffUpdate
-  simp only [Bool.false_eq_true, if_false, if_true]
-  field_simp; ring
+/-- the k-th observation of the executed trajectory function `extRun` is what the state after `k+1` steps stores: the
+driver's `extRun` and the proved `extFold` are the same recursion -/
+theorem extRun_getElem (op : Op) (st : ExtSt K) (steps : List (K × K)) (k : Nat) (hk : k < steps.length) :
+    ∃ h : k < (extRun op st steps).length,
+      (extRun op st steps)[k].1 = (extFold op st (steps.take (k + 1))).ext ∧
+      (extRun op st steps)[k].2.1 = (extFold op st (steps.take (k + 1))).tExt := by
+  induction steps generalizing st k with
+  | nil => simp at hk
+  | cons s rest ih =>
+    obtain ⟨t, v⟩ := s
+    cases k with
+    | zero =>
+      refine ⟨by simp [extRun], ?_⟩
+      simp only [extRun, List.getElem_cons_zero, List.take_succ_cons, List.take_zero, extFold, List.foldl_cons, List.foldl_nil]
+      unfold extObserve extAdvance; split_ifs <;> simp [*]
+    | succ k =>
+      obtain ⟨h, h1, h2⟩ := ih (extAdvance op st t v) k (by simpa using hk)
+      refine ⟨by simpa [extRun] using h, ?_⟩
+      simp only [extRun, List.getElem_cons_succ, List.take_succ_cons]
+      have : extFold op st ((t, v) :: rest.take (k + 1)) = extFold op (extAdvance op st t v) (rest.take (k + 1)) := by
+        simp [extFold]
+      rw [this]; exact ⟨h1, h2⟩
 
-/-- a realization at the same time keeps the previous estimate -/
-theorem diff_same_time (st : DiffSt K) (t f : K) : (diffUpdate st t f true).fdot = st.fdot := by
-  simp [diffUpdate]
+/-- without report states the flagged trajectory function the driver executes is `extRun` -/
+theorem extRunF_no_reports (op : Op) (st : ExtSt K) (steps : List (K × K)) :
+    extRunF op st (steps.map (fun p => (false, p.1, p.2))) = extRun op st steps := by
+  induction steps generalizing st with
+  | nil => rfl
+  | cons s rest ih => obtain ⟨t, v⟩ := s; simp [extRunF, extRun, ih]
+
+/-- a report state is observed against the extreme of the completed steps and leaves no trace -/
+theorem extRunF_report (op : Op) (st : ExtSt K) (t v : K) (rest : List (Bool × K × K)) :
+    extRunF op st ((true, t, v) :: rest) = extObserve op st t v :: extRunF op st rest := by
+  simp [extRunF]
 
 /-! ## Delay buffer -/
 
@@ -245,53 +261,364 @@ theorem copyInAndUpdate_wf (this old : Buf K) (tE tNow v : K) (hold : old.WF)
     · have : ((ke : Int) - fn + 1) ≤ this.cap := not_lt.mp h1
       omega
 
-/-- linear interpolation hits the stored samples exactly: asked for the time of the entry `(t₁,v₁)` that follows
-`(t₀,v₀)`, the interpolation formula returns `v₁`; asked for `t₀` it returns `v₀` -/
-theorem interpolation_exact_at_samples (t0 v0 t1 v1 : K) (h : t0 ≠ t1) :
-    v0 + (t1 - t0) / (t1 - t0) * (v1 - v0) = v1 ∧ v0 + (t0 - t0) / (t1 - t0) * (v1 - v0) = v0 := by
-  have hd : t1 - t0 ≠ 0 := sub_ne_zero.mpr (Ne.symm h)
-  constructor
-  · rw [div_self hd]; ring
-  · simp
 
-/-- **delay_returns_interpolant**: between two stored samples the returned value is the convex combination of the two
-values, hence lies between them -/
-theorem interpolant_between (t0 v0 t1 v1 tau : K) (h01 : t0 < t1) (h0 : t0 ≤ tau) (h1 : tau ≤ t1) :
-    min v0 v1 ≤ v0 + (tau - t0) / (t1 - t0) * (v1 - v0) ∧ v0 + (tau - t0) / (t1 - t0) * (v1 - v0) ≤ max v0 v1 := by
-  have hd : 0 < t1 - t0 := sub_pos.mpr h01
-  have hf0 : 0 ≤ (tau - t0) / (t1 - t0) := div_nonneg (sub_nonneg.mpr h0) (le_of_lt hd)
-  have hf1 : (tau - t0) / (t1 - t0) ≤ 1 := by rw [div_le_one hd]; linarith
-  generalize (tau - t0) / (t1 - t0) = f at hf0 hf1
-  rcases le_total v0 v1 with h | h
-  · rw [min_eq_left h, max_eq_right h]; constructor <;> nlinarith
-  · rw [min_eq_right h, max_eq_left h]; constructor <;> nlinarith
+/-! ## what a query returns (Delay clause) -/
 
-/-- the value query on a one-entry buffer (start-up of a Delay measure) is that entry's value for every time: the
-operand is treated as constant before the simulation started -/
-theorem valueAt_single (t0 v0 tau : K) : (Buf.mk [(t0, v0)] 8 : Buf K).valueAt tau = some v0 := by
-  unfold Buf.valueAt findFirstLaterOrEq
-  by_cases h : tau ≤ t0
-  · simp [List.findIdx?_cons, h]
-  · simp [List.findIdx?_cons, h]
 
-/-! ## arithmetic measures -/
+/-- `calcValueAtTimeLinearOnly` as a function of the logical contents only (the capacity plays no role) -/
+def vAt (es : List (K × K)) (tau : K) : Option K := (Buf.mk es 0).valueAt tau
 
-/-- `Sinusoid`: each reported derivative order is the trig-pair derivative (`ṡ = w·c`, `ċ = −w·s`) of the previous one -/
-theorem sinusoid_deriv_chain (a w s c : K) :
-    sinusoid 1 a w s c = a * (w * c) ∧
-    sinusoid 2 a w s c = w * a * (-(w * s)) ∧
-    sinusoid 3 a w s c = -w * w * a * (w * c) := by
-  simp only [sinusoid]; refine ⟨by ring, by ring, by ring⟩
+theorem valueAt_eq_vAt (b : Buf K) (tau : K) : b.valueAt tau = vAt b.entries tau := rfl
 
-/-- `Scale`, `Plus`, `Minus` compose as the linear expression they denote -/
-theorem arithmetic_identities (f x y : K) :
-    plus (scale f x) y = f * x + y ∧ minus (scale f x) y = f * x - y ∧ scale f (plus x y) = plus (scale f x) (scale f y) := by
-  refine ⟨rfl, rfl, ?_⟩
-  simp only [plus, scale]; ring
+def Sorted (es : List (K × K)) : Prop := es.Pairwise (fun x y => x.1 < y.1)
+
+theorem findFirst_cons (e : K × K) (es : List (K × K)) (tau : K) :
+    findFirstLaterOrEq (e :: es) tau = if tau ≤ e.1 then some 0 else (findFirstLaterOrEq es tau).map (· + 1) := by
+  unfold findFirstLaterOrEq
+  rw [List.findIdx?_cons]
+  by_cases h : tau ≤ e.1 <;> simp [h]
+
+/-- dropping the oldest entry does not change the answer as long as the *second* entry is still earlier than the query
+time and at least two entries remain -/
+theorem vAt_drop_head (e0 e1 e2 : K × K) (rest : List (K × K)) (tau : K)
+    (hs : Sorted (e0 :: e1 :: e2 :: rest)) (h1 : e1.1 < tau) :
+    vAt (e0 :: e1 :: e2 :: rest) tau = vAt (e1 :: e2 :: rest) tau := by
+  have h01 : e0.1 < e1.1 := (List.pairwise_cons.mp hs).1 e1 (by simp)
+  have h0 : ¬ tau ≤ e0.1 := not_le.mpr (lt_trans h01 h1)
+  have h1' : ¬ tau ≤ e1.1 := not_le.mpr h1
+  unfold vAt Buf.valueAt
+  simp only [List.isEmpty_cons, Bool.false_eq_true, if_false]
+  rw [findFirst_cons e0, if_neg h0, findFirst_cons e1, if_neg h1']
+  cases hf : findFirstLaterOrEq (e2 :: rest) tau with
+  | none =>
+    have hb : rest.length < (e1 :: e2 :: rest).length := by simp only [List.length_cons]; omega
+    simp [List.getElem?_eq_getElem hb]
+  | some j => simp
+
+/-- dropping `k` old entries is invisible to a query at `tau` provided the entries `1..k` are all earlier than `tau` and
+two entries remain -/
+theorem vAt_drop (es : List (K × K)) (tau : K) (k : Nat) (hs : Sorted es) (hlen : k = 0 ∨ k + 2 ≤ es.length)
+    (hlt : ∀ i < k, (es.getD (i + 1) (0, 0)).1 < tau) : vAt (es.drop k) tau = vAt es tau := by
+  induction k generalizing es with
+  | zero => simp
+  | succ k ih =>
+    have hl : k + 3 ≤ es.length := by rcases hlen with h | h <;> omega
+    rcases es with _ | ⟨e0, _ | ⟨e1, _ | ⟨e2, rest⟩⟩⟩
+    · simp at hl
+    · simp at hl
+    · simp at hl
+    · have hs' : Sorted (e1 :: e2 :: rest) := (List.pairwise_cons.mp hs).2
+      have h1 : e1.1 < tau := by simpa using hlt 0 (by omega)
+      have hl' : k = 0 ∨ k + 2 ≤ (e1 :: e2 :: rest).length := by
+        simp only [List.length_cons] at hl ⊢; omega
+      rw [List.drop_succ_cons, ih (e1 :: e2 :: rest) hs' hl' (fun i hi => by simpa using hlt (i + 1) (by omega))]
+      exact (vAt_drop_head e0 e1 e2 rest tau hs h1).symm
+
+theorem findFirst_some_iff (es : List (K × K)) (tau : K) (i : Nat) :
+    findFirstLaterOrEq es tau = some i ↔
+      ∃ h : i < es.length, tau ≤ es[i].1 ∧ ∀ j (hj : j < i), es[j].1 < tau := by
+  unfold findFirstLaterOrEq
+  rw [List.findIdx?_eq_some_iff_getElem]
+  simp only [decide_eq_true_eq, not_le]
+
+/-- what `countNumUnneededOldEntries` promises: either nothing is dropped, or at least two entries remain and every
+dropped entry *and its successor* are earlier than `tEarliest` -/
+theorem countUnneeded_spec (es : List (K × K)) (tE : K) :
+    (countUnneeded es tE = 0 ∨ countUnneeded es tE + 2 ≤ es.length) ∧
+    ∀ i < countUnneeded es tE, (es.getD (i + 1) (0, 0)).1 < tE := by
+  unfold countUnneeded
+  cases hf : findFirstLaterOrEq es tE with
+  | none => simp
+  | some f =>
+    obtain ⟨hfl, _, hbefore⟩ := (findFirst_some_iff es tE f).mp hf
+    simp only
+    refine ⟨by omega, fun i hi => ?_⟩
+    have hi1 : i + 1 < f := by omega
+    have hb : i + 1 < es.length := by omega
+    rw [List.getD_eq_getElem?_getD, List.getElem?_eq_getElem hb]
+    exact hbefore (i + 1) hi1
+
+/-- **forgetting is invisible**: the entries `append`/`copyInAndUpdate` discard for `tEarliest` are never needed to
+answer a query at any `tau ≥ tEarliest` -/
+theorem vAt_forget (es : List (K × K)) (tE tau : K) (hs : Sorted es) (h : tE ≤ tau) :
+    vAt (es.drop (countUnneeded es tE)) tau = vAt es tau := by
+  obtain ⟨h1, h2⟩ := countUnneeded_spec es tE
+  exact vAt_drop es tau _ hs h1 (fun i hi => lt_of_lt_of_le (h2 i hi) h)
+
+
+/-- the interpolation formula of `calcValueAtTimeLinearOnly` -/
+def interp (e0 e1 : K × K) (tau : K) : K := e0.2 + (tau - e0.1) / (e1.1 - e0.1) * (e1.2 - e0.2)
+
+/-- **delay_returns_interpolant**: on a well-formed buffer, a query time that is later than the oldest entry and not later
+than the newest is answered from the two stored samples that bracket it: `t_i < tau ≤ t_{i+1}`, the value is their
+linear interpolant, and it lies between the two stored values -/
+theorem vAt_bracket (es : List (K × K)) (tau : K) (i : Nat) (hs : Sorted es)
+    (hf : findFirstLaterOrEq es tau = some (i + 1)) :
+    ∃ (h : i + 1 < es.length), es[i].1 < tau ∧ tau ≤ es[i + 1].1 ∧ vAt es tau = some (interp es[i] es[i + 1] tau) ∧
+      min es[i].2 es[i + 1].2 ≤ interp es[i] es[i + 1] tau ∧ interp es[i] es[i + 1] tau ≤ max es[i].2 es[i + 1].2 := by
+  obtain ⟨hlen, hle, hbefore⟩ := (findFirst_some_iff es tau (i + 1)).mp hf
+  have hlt : es[i].1 < tau := hbefore i (by omega)
+  refine ⟨hlen, hlt, hle, ?_, ?_⟩
+  · unfold vAt Buf.valueAt
+    have hne : es.isEmpty = false := by cases es <;> simp at hlen ⊢
+    simp only [hne, Bool.false_eq_true, if_false, hf]
+    have h1 : es.getD i (0, 0) = es[i] := by rw [List.getD_eq_getElem?_getD, List.getElem?_eq_getElem (by omega)]; rfl
+    have h2 : es.getD (i + 1) (0, 0) = es[i + 1] := by rw [List.getD_eq_getElem?_getD, List.getElem?_eq_getElem hlen]; rfl
+    simp only [h1, h2, interp]
+  · have h01 : es[i].1 < es[i + 1].1 := List.pairwise_iff_getElem.mp hs i (i + 1) (by omega) hlen (by omega)
+    have hd : 0 < es[i + 1].1 - es[i].1 := sub_pos.mpr h01
+    have hf0 : 0 ≤ (tau - es[i].1) / (es[i + 1].1 - es[i].1) := div_nonneg (le_of_lt (sub_pos.mpr hlt)) (le_of_lt hd)
+    have hf1 : (tau - es[i].1) / (es[i + 1].1 - es[i].1) ≤ 1 := by rw [div_le_one hd]; linarith
+    unfold interp
+    generalize (tau - es[i].1) / (es[i + 1].1 - es[i].1) = f at hf0 hf1
+    rcases le_total es[i].2 es[i + 1].2 with h | h
+    · rw [min_eq_left h, max_eq_right h]; constructor <;> nlinarith
+    · rw [min_eq_right h, max_eq_left h]; constructor <;> nlinarith
+
+/-- on a well-formed buffer the time of a stored sample is answered by exactly that sample's value -/
+theorem vAt_at_sample (es : List (K × K)) (i : Nat) (hi : i < es.length) (hs : Sorted es) :
+    vAt es es[i].1 = some es[i].2 := by
+  have hf : findFirstLaterOrEq es es[i].1 = some i := by
+    rw [findFirst_some_iff]
+    exact ⟨hi, le_refl _, fun j hj => List.pairwise_iff_getElem.mp hs j i (by omega) hi hj⟩
+  have hne : es.isEmpty = false := by cases es <;> simp at hi ⊢
+  cases i with
+  | zero =>
+    unfold vAt Buf.valueAt
+    simp only [hne, Bool.false_eq_true, if_false, hf]
+    rw [List.getD_eq_getElem?_getD, List.getElem?_eq_getElem hi]; rfl
+  | succ k =>
+    obtain ⟨_, _, _, hv, _⟩ := vAt_bracket es es[k + 1].1 k hs hf
+    rw [hv]
+    have h01 : es[k].1 < es[k + 1].1 := List.pairwise_iff_getElem.mp hs k (k + 1) (by omega) hi (by omega)
+    have hd : es[k + 1].1 - es[k].1 ≠ 0 := ne_of_gt (sub_pos.mpr h01)
+    unfold interp; rw [div_self hd]; congr 1; ring
+
+
+/-- every entry earlier than `t` is kept by `removeEntriesLaterOrEq(t)` (no sortedness needed) -/
+theorem lt_keepEarlier (es : List (K × K)) (t : K) (i : Nat) (hi : i < es.length) (h : es[i].1 < t) :
+    i < keepEarlier es t := by
+  unfold keepEarlier findLastEarlier
+  cases hr : es.reverse.findIdx? (fun e => decide (e.1 < t)) with
+  | none =>
+    have := List.findIdx?_eq_none_iff.mp hr es[i] (by simp)
+    simp at this; exact absurd h (not_lt.mpr this)
+  | some k =>
+    obtain ⟨hk, _, hmin⟩ := List.findIdx?_eq_some_iff_getElem.mp hr
+    have hklen : k < es.length := by simpa using hk
+    simp only [Option.map_some]
+    -- the reverse index of `i` satisfies the predicate, so `k` is at most that
+    by_contra hcon
+    have hlt : es.length - 1 - i < k := by omega
+    have := hmin (es.length - 1 - i) hlt
+    rw [List.getElem_reverse] at this
+    have e : es.length - 1 - (es.length - 1 - i) = i := by omega
+    simp only [e, decide_eq_true_eq] at this
+    exact this h
+
+theorem keepEarlier_le (es : List (K × K)) (t : K) : keepEarlier es t ≤ es.length := by
+  unfold keepEarlier findLastEarlier
+  cases hr : es.reverse.findIdx? (fun e => decide (e.1 < t)) with
+  | none => simp
+  | some k =>
+    obtain ⟨hk, _, _⟩ := List.findIdx?_eq_some_iff_getElem.mp hr
+    have hklen : k < es.length := by simpa using hk
+    simp only [Option.map_some]; omega
+
+/-- when every stored time is earlier than `t` nothing is removed -/
+theorem keepEarlier_all (es : List (K × K)) (t : K) (h : ∀ e ∈ es, e.1 < t) : keepEarlier es t = es.length := by
+  rcases Nat.eq_zero_or_pos es.length with h0 | hpos
+  · have := keepEarlier_le es t; omega
+  · have := lt_keepEarlier es t (es.length - 1) (by omega) (h _ (List.getElem_mem _))
+    have := keepEarlier_le es t; omega
+
+/-- the hypothesis of `copyInAndUpdate_wf` holds whenever `tEarliest ≤ tNow` (a non-negative delay) -/
+theorem countUnneeded_le_keepEarlier (es : List (K × K)) (tE tNow : K) (h : tE ≤ tNow) :
+    countUnneeded es tE ≤ keepEarlier es tNow := by
+  unfold countUnneeded
+  cases hf : findFirstLaterOrEq es tE with
+  | none => simp
+  | some f =>
+    obtain ⟨hfl, _, hbefore⟩ := (findFirst_some_iff es tE f).mp hf
+    simp only
+    rcases Nat.lt_or_ge f 3 with h3 | h3
+    · omega
+    · have := lt_keepEarlier es tNow (f - 1) (by omega) (lt_of_lt_of_le (hbefore (f - 1) (by omega)) h)
+      omega
+
+
+/-! ### the Delay measure along a trajectory -/
+
+/-- reference semantics of the Delay measure: at a step `(t, v)` the reported value is the linear-interpolation query at
+`t − delay` on the **complete, unpruned** history of the earlier steps -/
+def delaySpec (d : K) : List (K × K) → List (K × K) → List (Option K)
+  | _, [] => []
+  | hist, (t, v) :: rest => vAt hist (t - d) :: delaySpec d (hist ++ [(t, v)]) rest
+
+theorem getD_drop' (l : List (K × K)) (j i : Nat) : (l.drop j).getD i (0, 0) = l.getD (j + i) (0, 0) := by
+  simp [List.getD_eq_getElem?_getD, List.getElem?_drop]
+
+theorem getD_append_left' (l m : List (K × K)) (i : Nat) (h : i < l.length) :
+    (l ++ m).getD i (0, 0) = l.getD i (0, 0) := by
+  simp [List.getD_eq_getElem?_getD, List.getElem?_append_left h]
+
+/-- **delayRun_obs**: for strictly increasing step times (any delay), what the modelled Delay measure reports
+(state-variable buffer pruned by `copyInAndUpdate` at every step, two `Buf` objects swapping roles) is exactly the
+reference semantics on the unpruned history -/
+theorem delayRun_eq_spec (d : K) :
+    ∀ (steps hist : List (K × K)) (var cache : Buf K) (j : Nat) (tau0 : K),
+      Sorted (hist ++ steps) → var.entries = hist.drop j → (j = 0 ∨ j + 2 ≤ hist.length) →
+      (∀ i < j, (hist.getD (i + 1) (0, 0)).1 < tau0) → (∀ s ∈ steps, tau0 ≤ s.1 - d) →
+      delayRun d var cache steps = delaySpec d hist steps := by
+  intro steps
+  induction steps with
+  | nil => intro hist var cache j tau0 _ _ _ _ _; rfl
+  | cons s rest ih =>
+    intro hist var cache j tau0 hs hvar hj hlt hge
+    obtain ⟨t, v⟩ := s
+    have hsh : Sorted hist := (List.pairwise_append.mp hs).1
+    have htau : tau0 ≤ t - d := hge (t, v) (by simp)
+    have hall : ∀ e ∈ hist, e.1 < t := fun e he => (List.pairwise_append.mp hs).2.2 e he (t, v) (by simp)
+    simp only [delayRun, delaySpec]
+    congr 1
+    · rw [valueAt_eq_vAt, hvar]
+      exact vAt_drop hist (t - d) j hsh hj (fun i hi => lt_of_lt_of_le (hlt i hi) htau)
+    · -- the update
+      set es := var.entries with hes
+      have hes' : es = hist.drop j := hvar
+      have hse : Sorted es := by rw [hes']; exact List.Pairwise.sublist (List.drop_sublist _ _) hsh
+      have hke : keepEarlier es t = es.length :=
+        keepEarlier_all es t (fun e he => hall e (List.mem_of_mem_drop (by rw [hes'] at he; exact he)))
+      obtain ⟨hfn1, hfn2⟩ := countUnneeded_spec es (t - d)
+      set fn := countUnneeded es (t - d) with hfn
+      have hlen_es : es.length = hist.length - j := by rw [hes', List.length_drop]
+      have hjfn : j + fn ≤ hist.length := by rcases hfn1 with h | h <;> rcases hj with h' | h' <;> omega
+      have hent : (cache.copyInAndUpdate var (t - d) t v).entries = (hist ++ [(t, v)]).drop (j + fn) := by
+        unfold Buf.copyInAndUpdate
+        simp only
+        rw [← hes, hke, List.take_of_length_le (le_refl _), hes', List.drop_drop, List.drop_append_of_le_length hjfn]
+        rw [hfn, hes']
+      apply ih (hist ++ [(t, v)]) _ var (j + fn) (t - d)
+      · simpa [List.append_assoc] using hs
+      · exact hent
+      · simp only [List.length_append, List.length_singleton]
+        rcases hfn1 with h | h <;> rcases hj with h' | h' <;> omega
+      · intro i hi
+        have hi1 : i + 1 < hist.length := by rcases hfn1 with h | h <;> rcases hj with h' | h' <;> omega
+        rw [getD_append_left' _ _ _ hi1]
+        rcases Nat.lt_or_ge i j with hij | hij
+        · exact lt_of_lt_of_le (hlt i hij) htau
+        · have := hfn2 (i - j) (by omega)
+          rw [hes', getD_drop'] at this
+          have e : j + (i - j + 1) = i + 1 := by omega
+          rw [e] at this; exact this
+      · intro s hs'
+        have hts : t < s.1 := by
+          have := (List.pairwise_append.mp hs).2.1
+          exact (List.pairwise_cons.mp this).1 s hs'
+        linarith
+
+/-- the Delay measure from its initialization: `initializeVirtual` stores the single sample `(t0, v0)`; afterwards every
+reported value is the reference semantics on the unpruned history -/
+theorem delayRun_from_init (d t0 v0 : K) (cache : Buf K) (steps : List (K × K))
+    (hs : Sorted ((t0, v0) :: steps)) :
+    delayRun d (delayInit d t0 v0) cache steps = delaySpec d [(t0, v0)] steps := by
+  have hinit : (delayInit d t0 v0).entries = [(t0, v0)] := by
+    simp [delayInit, Buf.append, Buf.empty, countUnneeded, findFirstLaterOrEq, keepEarlier, findLastEarlier]
+  apply delayRun_eq_spec d steps [(t0, v0)] _ cache 0 (t0 - d)
+  · simpa using hs
+  · simpa using hinit
+  · exact Or.inl rfl
+  · intro i hi; omega
+  · intro s hs'
+    have : t0 < s.1 := (List.pairwise_cons.mp hs).1 s hs'
+    linarith
+
+
+/-- `copyInAndUpdate` preserves the invariant for every non-negative delay (`tEarliest ≤ tNow`); the keep-count
+hypothesis of `copyInAndUpdate_wf` is derived -/
+theorem copyInAndUpdate_wf_of_le (this old : Buf K) (tE tNow v : K) (hold : old.WF) (h : tE ≤ tNow) :
+    (this.copyInAndUpdate old tE tNow v).WF :=
+  copyInAndUpdate_wf this old tE tNow v hold (countUnneeded_le_keepEarlier old.entries tE tNow h)
+
+/-! ## Differentiate (approximation in use) -/
+
+/-- a realization at the same time keeps the previous estimate -/
+theorem diff_same_time (st : DiffSt K) (t f : K) : (diffUpdate st t f true).fdot = st.fdot := by
+  simp [diffUpdate]
+
+
+/-- from the reachable initial state (`fdot = 0`, `derivIsGood = false`) every estimate of an affine operand sampled at
+distinct times is exact -/
+theorem diffRun_affine (a b : K) :
+    ∀ (steps : List K) (st : DiffSt K), st.f = a * st.t0 + b → (st.good = true → st.fdot = a) →
+      (List.Pairwise (· ≠ ·) (st.t0 :: steps)) →
+      ∀ x ∈ diffRun st (steps.map (fun t => (t, a * t + b, false))), x = a := by
+  intro steps
+  induction steps with
+  | nil => intro st _ _ _ x hx; simp [diffRun] at hx
+  | cons t rest ih =>
+    intro st hf hg hp x hx
+    have hne : t ≠ st.t0 := fun h => (List.pairwise_cons.mp hp).1 t (by simp) h.symm
+    have hd : t - st.t0 ≠ 0 := sub_ne_zero.mpr hne
+    have hval : (diffUpdate st t (a * t + b) false).fdot = a := by
+      unfold diffUpdate
+      simp only [Bool.false_eq_true, if_false]
+      cases hgd : st.good
+      · simp only [Bool.false_eq_true, if_false]; rw [hf]; field_simp; ring
+      · simp only [if_true]; rw [hf, hg hgd]; field_simp; ring
+    simp only [List.map_cons, diffRun, List.mem_cons] at hx
+    rcases hx with rfl | hx
+    · exact hval
+    · refine ih (diffUpdate st t (a * t + b) false) ?_ (fun _ => hval) ?_ x hx
+      · simp [diffUpdate]
+      · have hp' := (List.pairwise_cons.mp hp).2
+        have : (diffUpdate st t (a * t + b) false).t0 = t := by simp [diffUpdate]
+        rw [this]; exact hp'
+
+/-- **the error of the "second order" estimate is never damped**: for a quadratic operand, if the stored estimate is off by
+`e`, the next estimate is off by exactly `−e` (whatever the step) — the first step's first-order error alternates in sign
+forever -/
+theorem diff_quadratic_error_flips (a b c t0 t e : K) (h : t ≠ t0) :
+    (diffUpdate ⟨a * t0 ^ 2 + b * t0 + c, 2 * a * t0 + b + e, true, t0⟩ t (a * t ^ 2 + b * t + c) false).fdot
+      = 2 * a * t + b - e := by
+  have hd : t - t0 ≠ 0 := sub_ne_zero.mpr h
+  unfold diffUpdate
+  simp only [Bool.false_eq_true, if_false, if_true]
+  field_simp; ring
+
+/-- the first estimate after initialization is the difference quotient: for a quadratic operand its error is `−a·h` -/
+theorem diff_first_step_quadratic (a b c t0 t : K) (h : t ≠ t0) :
+    (diffUpdate (diffInit t0 (a * t0 ^ 2 + b * t0 + c)) t (a * t ^ 2 + b * t + c) false).fdot
+      = 2 * a * t + b - a * (t - t0) := by
+  have hd : t - t0 ≠ 0 := sub_ne_zero.mpr h
+  unfold diffUpdate diffInit
+  simp only [Bool.false_eq_true, if_false]
+  field_simp; ring
+
+/-! Integrate -/
+
+/-- **integrate_is_state** (explicit Euler): the integral reported after the steps is the initial condition plus the
+left Riemann sum of the operand over the steps -/
+theorem integEulerRun_last (z t0 v0 : K) (steps : List (K × K)) :
+    ((z :: integEulerRun z t0 v0 steps).getLast (by simp)) =
+      z + (List.zipWith (fun (p q : K × K) => (q.1 - p.1) * p.2) ((t0, v0) :: steps) steps).sum := by
+  induction steps generalizing z t0 v0 with
+  | nil => simp [integEulerRun]
+  | cons s rest ih =>
+    obtain ⟨t, v⟩ := s
+    simp only [integEulerRun, List.zipWith_cons_cons, List.sum_cons]
+    rw [List.getLast_cons (by simp), ih]
+    unfold integEulerStep; ring
+
 
 /-! ## non-vacuity -/
 example : (extFold .maxAbs (extInit (0 : ℚ) 1) [(1, -3), (2, 2)]).ext = -3 := by
   norm_num [extFold, extAdvance, extInit, isNewExtreme, absK]
 example : ((Buf.empty : Buf ℚ).append (-1) 0 5).WF := append_wf _ _ _ _ empty_wf
+/-- the sortedness hypothesis of the query theorems matters: on an unsorted list the query is answered from the wrong pair -/
+example : vAt [((2 : ℚ), 10), (1, 20), (3, 30)] (3 / 2) = some 10 := by
+  norm_num [vAt, Buf.valueAt, findFirstLaterOrEq, List.findIdx?_cons]
+example : Sorted [((0 : ℚ), (1 : ℚ)), (1, 2), (2, 4)] := by simp [Sorted]
 
 end C23
